@@ -364,11 +364,48 @@ def from_config_probe() -> dict:
     return out
 
 
+# The rig's OWN account of what was put on the air, per airspace and per PHYSICAL channel (hz): bytes handed to `AirSpace.transmit`
+# since the last `reset_bandwidth_load` (maintained by the recorder's wrappers; never read from the implementation's dict).
+_OWN_AIR: Dict[int, Dict[int, int]] = {}
+# What the rig could not read of the implementation's bookkeeping (a container keyed / shaped differently from what the model and
+# the rig assume): a broken correspondence obligation, never an internal error.  Reset by `run_impl`.
+READ_PROBLEMS: List[str] = []
+
+
+def own_air_bytes(airspace, hz: int) -> int:
+    return _OWN_AIR.get(id(airspace), {}).get(int(hz), 0)
+
+
+def _read_problem(msg: str):
+    if msg not in READ_PROBLEMS and len(READ_PROBLEMS) < 20:
+        READ_PROBLEMS.append(msg)
+
+
+def air_counter_of(airspace, hz: int):
+    """The implementation's own counter for the physical channel `hz` (Mbit), or None when `bandwidth_load` is not a mapping from
+    a frequency in hertz to a number (then the problem is noted)."""
+    try:
+        items = list(airspace.bandwidth_load.items())
+        hit = None
+        for k, v in items:   # keys are whatever `frequency_hz` is (2.4e9 as float for the shipped names)
+            if isinstance(k, bool) or not isinstance(k, (int, float)) or isinstance(v, bool) or not isinstance(v, (int, float)):
+                _read_problem(f"AirSpace.bandwidth_load has an entry {k!r}: {v!r} that is not <frequency in hz>: <load>")
+                return None
+            if int(k) == hz:
+                hit = float(v)
+        return 0.0 if hit is None else hit
+    except Exception as e:
+        _read_problem(f"AirSpace.bandwidth_load cannot be read per hz: {type(e).__name__}: {e}")
+        return None
+
+
 def _air_load_of(airspace, hz: int) -> float:
-    for k, v in airspace.bandwidth_load.items():   # keys are whatever `frequency_hz` is (2.4e9 as float for the shipped names)
-        if int(k) == hz:
-            return v
-    return 0.0
+    """Load of the physical channel `hz`: the implementation's counter when it has one per hz; otherwise what the rig itself saw
+    go out on that hz since the last reset (so the run goes on, the model is asked the same questions, and the oracles decide)."""
+    v = air_counter_of(airspace, hz)
+    if v is None:
+        return own_air_bytes(airspace, hz) / UNIT
+    return v
 
 
 # ------------------------------------------------------------------------------------------------- recorder
@@ -620,7 +657,7 @@ class Recorder:
                 exact = None
                 try:
                     hz = sender_network_interface.frequency.frequency_hz
-                    exact = (Fraction(air.bandwidth_load.get(hz, 0.0)) + Fraction(frame.size_Mbits)
+                    exact = (Fraction(_air_load_of(air, int(hz))) + Fraction(frame.size_Mbits)
                              <= Fraction(air.get_frequency_max_capacity_mbps(sender_network_interface.frequency.name)))
                 except Exception:
                     pass
@@ -637,6 +674,12 @@ class Recorder:
 
         def mk_atx(orig):
             def transmit(air, frame, sender_network_interface):
+                try:    # the rig's own account of the physical channel, before the implementation does anything
+                    own = _OWN_AIR.setdefault(id(air), {})
+                    hz0 = int(sender_network_interface.frequency.frequency_hz)
+                    own[hz0] = own.get(hz0, 0) + int(frame.size)
+                except Exception as e:
+                    _read_problem(f"AirSpace.transmit: the sender's frequency cannot be read: {type(e).__name__}: {e}")
                 att = rec.open[-1] if rec.open and rec.open[-1]["t"] == "W" else None
                 if att is not None:
                     att["tx"] = True
@@ -646,6 +689,25 @@ class Recorder:
                 return orig(air, frame, sender_network_interface)
             return transmit
         self._patch(AirSpace, "transmit", mk_atx)
+
+        def mk_areset(orig):
+            def reset_bandwidth_load(air, *a, **kw):
+                _OWN_AIR.pop(id(air), None)
+                return orig(air, *a, **kw)
+            return reset_bandwidth_load
+        self._patch(AirSpace, "reset_bandwidth_load", mk_areset)
+        # start the rig's own account from what the implementation's counters say now (zero after the rig's initial reset)
+        try:
+            air0 = rec.w.net.airspace
+            _OWN_AIR[id(air0)] = {}
+            for hz0, _ifs in rec.w.chans:
+                v0 = air_counter_of(air0, hz0)
+                if v0:
+                    _OWN_AIR[id(air0)][int(hz0)] = exact_bytes(v0)
+        except InexactLoad:
+            raise
+        except Exception as e:
+            _read_problem(f"initial airspace loads cannot be read: {type(e).__name__}: {e}")
 
         def mk_setcap(orig):
             def set_frequency_max_capacity_mbps(air, cfg):
@@ -714,8 +776,12 @@ class Recorder:
                 r = orig(net, timestep)
                 marker["foreign"] = reset_reach(rec.w)
                 marker["after"] = dump(rec.w)
-                marker["zero"] = (all(l.current_load == 0.0 for l in rec.w.links)
-                                  and all(v == 0.0 for v in net.airspace.bandwidth_load.values()))
+                try:
+                    air_zero = all(v == 0.0 for v in net.airspace.bandwidth_load.values())
+                except Exception as e:
+                    _read_problem(f"AirSpace.bandwidth_load values cannot be read: {type(e).__name__}: {e}")
+                    air_zero = True
+                marker["zero"] = all(l.current_load == 0.0 for l in rec.w.links) and air_zero
                 rec.stack[-1].append(marker)
                 return r
             return pre_timestep
@@ -1132,11 +1198,22 @@ def run_impl(case: dict, inventory=None) -> dict:
     same format, the raw forests, and what the implementation-side oracle saw."""
     import logging
     _FTP_N[0] = 0
+    del READ_PROBLEMS[:]
     w = build_scenario(case["scenario"]) if "scenario" in case else build(case["topo"])
-    w.net.pre_timestep(0)  # construction / reset sends traffic of its own; start from a tick boundary
+    info: Dict[str, int] = {}
     lines: List[str] = []
-    for l in w.links:
-        lines.append(f"link {floor_bytes(l.bandwidth)} {int(bool(l.endpoint_a.enabled))} {int(bool(l.endpoint_b.enabled))}")
+    if "scenario" in case:
+        # a whole environment: what `reset()` / construction sent stays on the links — the first step must clear it itself (the
+        # model starts from that state: the theorems hold from any start state); the airspace (no shipped scenario has one) is cleared
+        w.net.airspace.reset_bandwidth_load()
+        left = [exact_bytes(l.current_load) for l in w.links]
+        info["scenario:links-with-a-load-left-by-construction"] = sum(1 for v in left if v)
+        for l, v in zip(w.links, left):
+            lines.append(f"link {floor_bytes(l.bandwidth)} {int(bool(l.endpoint_a.enabled))} {int(bool(l.endpoint_b.enabled))} {v}")
+    else:
+        w.net.pre_timestep(0)  # construction sends traffic of its own; start from a tick boundary
+        for l in w.links:
+            lines.append(f"link {floor_bytes(l.bandwidth)} {int(bool(l.endpoint_a.enabled))} {int(bool(l.endpoint_b.enabled))}")
     for c, (hz, ifs) in enumerate(w.chans):
         lines.append(f"chan {','.join(str(w.icap(i)) for i in ifs)} en {w.en_bits(c)} mem {w.mem_bits(c)}")
     impl = ["ok"] * len(lines)
@@ -1156,7 +1233,6 @@ def run_impl(case: dict, inventory=None) -> dict:
     t = [1]
 
     forest_ops: List[int] = []
-    info: Dict[str, int] = {}
     far_seen = set()
 
     def bump(k, n=1):
@@ -1250,6 +1326,12 @@ def run_impl(case: dict, inventory=None) -> dict:
                 oracle.append({"kind": "load-exceeds-bandwidth", "op": oi, "medium": "wired", "k": k, "load": exact_bytes(l.current_load),
                                "cap": lpeak[k], "at": at})
         for c, (hz, ifs) in enumerate(w.chans):
+            cnt = air_counter_of(w.net.airspace, hz)
+            if cnt is not None:
+                bump("airspace-counter-compared-with-the-rig's-own-sum-per-hz")
+                if exact_bytes(cnt) != own_air_bytes(w.net.airspace, hz):
+                    oracle.append({"kind": "airspace-counter-is-not-what-was-sent-on-the-hz", "op": oi, "medium": "wireless", "k": c,
+                                   "counter": exact_bytes(cnt), "sent": own_air_bytes(w.net.airspace, hz), "at": at})
             load = exact_bytes(_air_load_of(w.net.airspace, hz))
             if load > cpeak[c]:
                 oracle.append({"kind": "load-exceeds-bandwidth", "op": oi, "medium": "wireless", "k": hz, "at": at})
@@ -1430,7 +1512,7 @@ def run_impl(case: dict, inventory=None) -> dict:
         except Exception:
             pass
     return {"lines": lines, "impl": impl, "forests": forests, "forest_ops": forest_ops, "oracle": oracle, "info": info,
-            "wrapped": wrapped, "runtime_inventory": runtime_inv}
+            "wrapped": wrapped, "runtime_inventory": runtime_inv, "read_problems": list(READ_PROBLEMS)}
 
 
 # ------------------------------------------------------------------------------------------------- generation
@@ -1467,7 +1549,7 @@ def gen_case(rng: Rng, max_ops: int = 14) -> dict:
         topo["freqs"] = [("WIFI_5" if rng.chance(1, 5) else "WIFI_2_4") for _ in range(nl)]
         cap = gen_bw(rng, True) * rng.choice([1, 1, 2, 3])
         topo["cap"] = [["WIFI_2_4", cap], ["WIFI_5", gen_bw(rng, True)]]
-        if rng.chance(1, 3):
+        if rng.chance(1, 2):
             # two frequency names on one hz: some access points use the alternative name, which has its own capacity
             # (smaller, larger, or equal) while the load is shared
             for j in range(nl):
@@ -1596,6 +1678,21 @@ def gen_case(rng: Rng, max_ops: int = 14) -> dict:
             ops += trip_ops(rng, topo, hosts)
         else:
             ops.append(["ping", a, b, 1])
+    if kind == "wireless" and ALT_NAME in topo["freqs"] and "WIFI_2_4" in topo["freqs"] and rng.chance(3, 4):
+        # family "aliased channel": ONE physical channel (hz) used under two frequency names by different access points; in one tick
+        # first the access points of one name, then those of the other, each burst well within the capacity of its own name and
+        # together beyond it (a budget kept per name instead of per hz lets the hz carry a multiple of its capacity)
+        caps = dict(topo["cap"])
+        per = max(1, int(min(caps["WIFI_2_4"], caps[ALT_NAME]) * UNIT))
+        length = rng.choice([0, 100, 300])
+        count = max(1, min(8, (per * rng.choice([6, 8, 9]) // 10) // (700 + length)))
+        first = rng.choice(["WIFI_2_4", ALT_NAME])
+        order = ([j for j, f in enumerate(topo["freqs"]) if f == first]
+                 + [j for j, f in enumerate(topo["freqs"]) if f not in (first, "WIFI_5")])
+        fam = [["tick"]] + [["wburst", "wr%d" % j, length, count] for j in order]
+        at = rng.below(len(ops) + 1)
+        ops[at:at] = fam
+        topo["aliased_channel_family"] = True
     return {"topo": topo, "ops": ops}
 
 
